@@ -369,6 +369,18 @@ def run_stft(al, case, variant=0):
             proc = al.stft(**ka)(user)
         else:
             proc = al.stft(**ka)(**kb)(user)
+        if variant % 2 == 1 and isinstance(size_hint, int) and size_hint > 0:
+            # a processor is a value: an earlier call (here with another analysis window of the same size and its
+            # own overlap-add) must leave no trace in the call that is judged
+            try:
+                warm = dict(kc)
+                warm.update(wnd=lambda size: [7] * size, ola=lambda blks, **kws: (list(b) for b in blks))
+                for _ in proc([LinForm.sym(i) for i in range(1, size_hint + 2)], **warm):
+                    pass
+            except Exception:                                   # noqa: the judged call below is what counts
+                pass
+            del fseen[:]
+            del stubrec[:]
         result = proc(sig, **kc)
         ola = merged.get("ola")
         if ola == "list":
